@@ -6,6 +6,6 @@ export PYTHONHASHSEED=0 PIP_NO_INDEX=1
 export PYTHONPATH="$PWD:$PWD/.deps${PYTHONPATH:+:$PYTHONPATH}"
 mkdir -p out evidence .build
 /venv/bin/python -c "from vf import setup_env; setup_env.ensure_deps()"
-/venv/bin/python -m vf.build rel asan
+/venv/bin/python -m vf.build rel asan tsan scalar
 /venv/bin/python -c "from vf.gen import corpus; print('corpus models loadable:', len(corpus.loadable()))"
 echo "setup ok"
